@@ -14,6 +14,7 @@ REMOVE_METHODS = {'clear', 'pop_front', 'pop_back', 'erase', 'remove', 'remove_i
 LIFETIME = ('ctor', 'dtor')
 
 
+
 def queue_of(fn):
     k = fn.outermost().skey
     for q in QUEUES:
@@ -294,3 +295,63 @@ def check_counter_zero(ctx, tu, rule):
                detail='; '.join(bad) + ' - guards alive on the source only ever decrement the source, so the new queue never gets back to zero',
                key_detail='counters zero')
     return n
+
+
+# ---- derived emptiness state ("cached" flag / count next to the list) --------------------------------------------------------------
+LIST_MUTATORS = {'splice', 'emplace_back', 'push_back', 'emplace_front', 'push_front', 'insert', 'emplace', 'merge', 'clear', 'pop_front',
+                 'pop_back', 'erase', 'remove', 'remove_if', 'swap', 'operator='}
+EMPTINESS_SOURCES = ('queueList', 'queueEmptyCounter', 'queueNotifyCounter', 'queueListMutex', 'queueListConditionVariable')
+
+
+def derived_emptiness_fields(tu, q):
+    """Data members of queue class q, other than the list and the two guard counters, that emptyQueue() / doCanProcess() / the wait
+    predicates read: state *derived* from the list (a cached flag or count)."""
+    from ..effects import fields_read_transitively
+    own = set()
+    for c in tu.classes_by_key.get(q, []):
+        own |= {fl['name'] for fl in c.get('fields', [])}
+    out = set()
+    for name in ('emptyQueue', 'doCanProcess'):
+        for f in tu.fns_named(q + '::' + name):
+            out |= fields_read_transitively(f)
+    for name in ('wait', 'waitFor'):
+        for f in tu.fns_named(q + '::' + name):
+            for g in tu.lambdas_of.get(f.id, []):
+                out |= fields_read_transitively(g)
+    return sorted(x for x in out if x in own and x not in EMPTINESS_SOURCES)
+
+
+def check_derived_emptiness(ctx, tu, info, q, rule):
+    """Necessary condition for any state the emptiness tests read instead of (or besides) the list itself: every critical section that
+    changes queueList also re-establishes that state before it ends - otherwise there is a moment (and, when no later writer comes, a
+    final state) in which emptyQueue() / the wait predicate describe a list that is not the one held."""
+    derived = derived_emptiness_fields(tu, q)
+    fns = [g for g in info.members(q) if g.kind not in ('ctor', 'dtor')]
+    if not fns or not tu.fns_named(q + '::emptyQueue'):
+        return []
+    n_sites = 0
+    for g in fns:
+        ws = info.writes(g)
+        muts = [w for w in ws if w['path'] == ('this', '.queueList') and
+                (w['how'].startswith('call:') and w['how'][5:] in LIST_MUTATORS or w['how'] in ('arg:std::swap', 'assign'))]
+        if not muts:
+            continue
+        si = info.scopes(g)
+        for w in muts:
+            n_sites += 1
+            if not derived:
+                continue
+            for fld in derived:
+                refresh = [x for x in ws if x['path'][:2] == ('this', '.' + fld) and x['how'] != 'guard' and
+                           (x['how'] in ('assign', '++', '--', '+=', '-=') or x['how'].startswith('call:'))
+                           and (x['pos'] == w['pos'] or g.pos_reaches(w['pos'], x['pos']) or g.pos_reaches(x['pos'], w['pos']))
+                           and {mutex_name(m) for m in si.node_held_must(x['node'])} & {mutex_name(m) for m in si.node_held_must(w['node'])}]
+                ctx.ob(rule, g, 'a critical section that changes queueList also refreshes %s, which the emptiness tests read' % fld, bool(refresh),
+                       detail='%s at %s changes the list under the mutex, and nothing in that critical section writes %s: emptyQueue() / the wait predicate '
+                              'then answer for a list that is no longer the one held (an event pending but reported empty, a waiter never released)'
+                              % (w['how'], g.nloc(w['node']), fld),
+                       where=g.nloc(w['node']), key_detail='%s stale after %s' % (fld, w['how'].split(':')[-1]))
+    if not derived:
+        ctx.ob(rule, (tu.fns_named(q + '::emptyQueue') or fns)[0], 'the emptiness tests read only the list and the guard counters (no derived state to keep coherent); '
+               '%d list-changing sites' % n_sites, True)
+    return derived
